@@ -1,12 +1,14 @@
 #!/bin/bash
 # usage: tools/mutant.sh <patch.diff> <ID> [tier]   -- apply a seeded change to /repo, run the check, undo it
 set -u
+cleanup() { cd /repo && git checkout -q -- . && git clean -fdq -- . >/dev/null 2>&1; find /repo -path /repo/target -prune -o \( -name '*.orig' -o -name '*.rej' \) -print | xargs -r rm -f; }
+trap cleanup EXIT
 patch=$(realpath $1); id=$2; tier=${3:-quick}
 cd /repo || exit 2
 if git apply --check "$patch" 2>/dev/null; then git apply "$patch"
 elif patch -p1 -F3 --dry-run -s < "$patch" >/dev/null 2>&1; then patch -p1 -F3 -s < "$patch"; echo "(applied with fuzz: the tree has moved since the pinned commit)"
 else echo "PATCH DOES NOT APPLY: $patch"; exit 3; fi
-cd /verif && ./check "$id" --tier "$tier" > /tmp/mutant_out.txt 2>&1
+cd /verif && timeout 1500 ./check "$id" --tier "$tier" > /tmp/mutant_out.txt 2>&1
 rc=$?
 cd /repo && git checkout -q -- . && git clean -fdq -- . >/dev/null 2>&1; find /repo -name '*.orig' -o -name '*.rej' | xargs -r rm -f
 echo "rc=$rc"; grep -c '^VIOLATION' /tmp/mutant_out.txt; grep -E '^VIOLATION|TOOL-ERROR' /tmp/mutant_out.txt | head -${4:-4}; tail -1 /tmp/mutant_out.txt
